@@ -20,6 +20,8 @@ def run(tier, seed):
     # between the backends and with the reference (kind through the chain, own mode, target text)
     from props import c02
     c02.grid(out, "chains", tier, ["--chains", "--stride", "1" if thorough else "3"], nworkers=12, groups_per_chunk=40)
+    # links whose target does not exist (on disk and in memory): the queries, and remove / remove_all / move_p / symlink on the link
+    c02.grid(out, "dangling", tier, ["--dangling", "--stride", "1" if thorough else "2"], nworkers=12, groups_per_chunk=40)
     out.assumptions += ["the remaining Stdfs side of the same laws is decided by the backend comparison (C02)"]
     out.finish(dict(rule="all (link, target) position pairs over names {a,b} depth <= 3 that can coexist x target kind {file, dir, missing} x {absolute, relative} spelling, "
                          "each followed by 20 query / chmod / chown / remove steps; plus every reachable tree with <= 1 link x all queries; judged by TLC"))
